@@ -35,6 +35,7 @@ _OS_SUBS = [[r"\bos\.ReadFile\(", "vxReadFile("], [r"\bos\.WriteFile\(", "vxWrit
 C19_INST = {"files": [
     {"file": "cmd/gosqlx/cmd/formatter.go", "subs": _OS_SUBS + [[r"\bexpandFileArgs\(args\)", "vxExpand(args)"], [r"\bValidateFileAccess\(filename\)", "vxAccess(filename)"]]},
     {"file": "cmd/gosqlx/cmd/atomic_write.go", "subs": _OS_SUBS},
+    {"file": "cmd/gosqlx/cmd/lint.go", "subs": _OS_SUBS + [[r"\bShouldReadFromStdin\(args\)", "vxNoStdin(args)"], [r"\bl\.LintFiles\(args\)", "vxLintFiles(l, args)"]]},
     {"file": "cmd/gosqlx/cmd/validator.go", "subs": _OS_SUBS + [[r"\bv\.expandFileArgs\(args\)", "vxExpand(args)"], [r"\bDetectAndReadInput\(filename\)", "vxDetect(filename)"]]},
 ]}
 
@@ -148,16 +149,19 @@ CHECKS = {
         ],
     },
     "C19": {
-        "bounds": {"quick": "units behind `gosqlx format` and `gosqlx validate` (Formatter.Format/formatFile/formatSQL, writeFileAtomic, Validator.Validate/validateFile) on an in-memory file system of 2 files, each holding one of 8 texts (valid unformatted, valid, valid+invalid statement, parser-rejected, tokenizer-rejected, comment-only, blank, zero bytes); format: mode (print / --check / -i), --uppercase and --compact symbolic; -i under one injected fault: any of the first 16 file-system operations either returns an I/O error or kills the process, a faulty write leaving k bytes on disk for every k up to the length of the new content; exit status derived as formatRun derives it; validate reports: FormatValidationJSON and FormatSARIF of every such run are well-formed JSON and name exactly the failing inputs (SARIF version 2.1.0, one run); SARIF artifact URIs: normalizeURI on every path of <= 5 bytes over {. / a b} without empty elements",
+        "bounds": {"quick": "units behind `gosqlx format` and `gosqlx validate` (Formatter.Format/formatFile/formatSQL, writeFileAtomic, Validator.Validate/validateFile) on an in-memory file system of 2 files, each holding one of 8 texts (valid unformatted, valid, valid+invalid statement, parser-rejected, tokenizer-rejected, comment-only, blank, zero bytes); format: mode (print / --check / -i), --uppercase and --compact symbolic; -i under one injected fault: any of the first 16 file-system operations either returns an I/O error or kills the process, a faulty write leaving k bytes on disk for every k up to the length of the new content; exit status derived as formatRun derives it; lint: lintRun itself (cobra command with buffered writers) on 1-2 files of 7 texts (clean, doubled spaces, blank-line run, tab / mixed indentation, literal and comment with doubled spaces, unparsable, empty): without --auto-fix no file changes, with it every file holds exactly the result of the fix flow, and under one injected fault (1 file in the quick tier) its complete original or complete fixed content; validate reports: FormatValidationJSON and FormatSARIF of every such run are well-formed JSON and name exactly the failing inputs (SARIF version 2.1.0, one run); SARIF artifact URIs: normalizeURI on every path of <= 5 bytes over {. / a b} without empty elements",
                    "thorough": "same with 3 files; URI paths <= 7 bytes"},
-        "outside": "the built binary, cobra flag parsing and os.Exit wiring (the exit status is recomputed from the unit's result exactly as formatRun/validateRun do); the real kernel file system (modelled: os.WriteFile truncates then writes, os.Rename is atomic, a crash loses nothing already written); lint --fix and parse commands (their write-back goes through the same writeFileAtomic helper, whose call site in lint.go is not executed); report fields other than well-formedness, verdict and the named inputs (messages, regions, fingerprints: SHA-256 is stubbed under the engine); parse command reports; directory/glob expansion and path security validation (stubbed to the identity); two or more faults in one run",
-        "assumptions": ["os.ReadFile/WriteFile/Stat/CreateTemp/Rename/Remove, (*os.File).Write/Chmod/Sync/Close, expandFileArgs, ValidateFileAccess and DetectAndReadInput are replaced by model functions with the documented contract (call sites rewritten in an overlay of the current sources on every run)", "the library verdict is gosqlx.Validate on the file's text", "encoding/json runs on the host through the engine's type-directed bridge on concrete values"],
+        "outside": "the built binary, cobra flag parsing and os.Exit wiring (the exit status is recomputed from the unit's result exactly as formatRun/validateRun do); the real kernel file system (modelled: os.WriteFile truncates then writes, os.Rename is atomic, a crash loses nothing already written); the parse command; lint's exit status and report text; Linter.LintFiles (replaced by a model-FS reader that calls LintString per file); report fields other than well-formedness, verdict and the named inputs (messages, regions, fingerprints: SHA-256 is stubbed under the engine); parse command reports; directory/glob expansion and path security validation (stubbed to the identity); two or more faults in one run",
+        "assumptions": ["os.ReadFile/WriteFile/Stat/CreateTemp/Rename/Remove, (*os.File).Write/Chmod/Sync/Close, expandFileArgs, ValidateFileAccess, DetectAndReadInput, ShouldReadFromStdin and Linter.LintFiles are replaced by model functions with the documented contract (call sites rewritten in an overlay of the current sources on every run)", "the library verdict is gosqlx.Validate on the file's text", "encoding/json runs on the host through the engine's type-directed bridge on concrete values"],
         "runs": [
             {"pkg": "cmd/gosqlx/cmd", "harness": "VxC19_Format", "instantiate": C19_INST, "expect_asserts": ["C19.exit_matches_library", "C19.check_only_never_writes", "C19.inplace_writes_formatted", "C19.print_equals_inplace", "C19.check_lists_exactly"]},
             {"pkg": "cmd/gosqlx/cmd", "harness": "VxC19_InPlaceFault", "instantiate": C19_INST, "expect_asserts": ["C19.atomic_replace", "C19.write_failure_reported"]},
             {"pkg": "cmd/gosqlx/cmd", "harness": "VxC19_Validate", "instantiate": C19_INST, "expect_asserts": ["C19.validate_matches_library", "C19.validate_counts"]},
             {"pkg": "cmd/gosqlx/cmd", "harness": "VxC19_Reports", "instantiate": C19_INST, "args": {"replace": "github.com/ajitpratap0/GoSQLX/cmd/gosqlx/internal/output.generateFingerprint=VxFingerprint"},
              "expect_asserts": ["C19.json_report_names_failing", "C19.sarif_report_names_failing", "C19.json_report_wellformed", "C19.sarif_report_wellformed"]},
+            {"pkg": "cmd/gosqlx/cmd", "harness": "VxC19_LintFix", "instantiate": C19_INST, "args": {"replace": "github.com/ajitpratap0/GoSQLX/cmd/gosqlx/internal/output.generateFingerprint=VxFingerprint"}, "expect_asserts": ["C19.lint_fix_writes_fixed", "C19.check_only_never_writes"]},
+            {"pkg": "cmd/gosqlx/cmd", "harness": "VxC19_LintFixFault1", "tiers": ["quick"], "instantiate": C19_INST, "args": {"replace": "github.com/ajitpratap0/GoSQLX/cmd/gosqlx/internal/output.generateFingerprint=VxFingerprint"}, "expect_asserts": ["C19.atomic_replace"]},
+            {"pkg": "cmd/gosqlx/cmd", "harness": "VxC19_LintFixFault", "tiers": ["thorough"], "instantiate": C19_INST, "args": {"replace": "github.com/ajitpratap0/GoSQLX/cmd/gosqlx/internal/output.generateFingerprint=VxFingerprint"}, "expect_asserts": ["C19.atomic_replace"]},
             {"pkg": "cmd/gosqlx/internal/output", "harness": "VxC19_SarifURI5", "tiers": ["quick"], "expect_asserts": ["C19.sarif_uri_names_input"]},
             {"pkg": "cmd/gosqlx/internal/output", "harness": "VxC19_SarifURI7", "tiers": ["thorough"], "expect_asserts": ["C19.sarif_uri_names_input"]},
             {"pkg": "cmd/gosqlx/cmd", "harness": "VxC19_Format3", "tiers": ["thorough"], "instantiate": C19_INST},
